@@ -200,6 +200,88 @@ def eval_pair(case):
     return r
 
 
+# ---- second clause: of independent tasks competing for one resource the higher-priority one is served first ----
+PRIOS = [0, 1, 100, 499, 500, 501, 750, 900, 1000]
+
+
+@st.composite
+def contests(draw):
+    """2-5 independent effort tasks (no dependencies, no dates) on ONE resource, each directly at top level or inside
+    1-2 levels of containers; priorities are written on the task, on a container (inherited) or nowhere (default
+    500); an explicit value may equal the default."""
+    from datetime import datetime
+
+    from ..spec import ProjectSpec, Res
+
+    res_min = draw(st.sampled_from([15, 30, 60]))
+    spec = ProjectSpec(start=datetime(2025, 1, 6), dur=(4, "w"), res_min=res_min, resources=[Res("r0")])
+    if draw(st.booleans()):
+        spec.sched = "alap"
+    n = draw(st.integers(2, 5))
+    order = []  # (path, effective priority)
+    gi = 0
+    for i in range(n):
+        leaf = Task(f"t{i}", effort=(str(draw(st.integers(1, 6)) * res_min), "min"), alloc=["r0"])
+        eff_prio = 500
+        depth = draw(st.integers(0, 2))
+        chain = []
+        for _ in range(depth):
+            c = Task(f"g{gi}")
+            gi += 1
+            if draw(st.booleans()):
+                c.priority = draw(st.sampled_from(PRIOS))
+                eff_prio = c.priority
+            chain.append(c)
+        if draw(st.integers(0, 2)) > 0:
+            leaf.priority = draw(st.sampled_from(PRIOS + [500, 500]))
+            eff_prio = leaf.priority
+        node = leaf
+        for c in reversed(chain):
+            c.children = [node]
+            node = c
+        spec.tasks.append(node)
+        order.append((tuple(x.id for x in chain) + (leaf.id,), eff_prio))
+    return spec, order
+
+
+def eval_contest(case):
+    spec, order = case
+    text = render(spec)
+    obs = observe.observe(text)
+    r = Result(key=text)
+    if not obs.ok:
+        r.classes.append("exc:" + obs.exc_bucket)
+        return r
+    tm = obs.scen[0].tmap()
+    ranked = sorted(range(len(order)), key=lambda i: (-order[i][1], i))  # priority, then declaration order
+    backward = spec.sched == "alap"
+    r.classes.append("alap" if backward else "asap")
+    prev = None
+    for i in ranked:
+        p, pr = order[i]
+        to = tm.get(p)
+        if to is None or not to.scheduled:
+            r.classes.append("unscheduled")
+            return r
+        if prev is not None:
+            q, qpr, qo = prev
+            # one resource, no other constraint: whoever is served first takes the slots next to the project
+            # start (forward) / project end (backward)
+            bad = to.start < qo.start if not backward else to.end > qo.end
+            if bad and qpr != pr:
+                r.violations.append(Violation("lower_priority_served_first", ".".join(p),
+                                              f"priority {pr} {to.start}..{to.end} is placed ahead of {'.'.join(q)} (priority {qpr}) {qo.start}..{qo.end}",
+                                              {"explicit_default": pr == 500 or qpr == 500}))
+                break
+        prev = (p, pr, to)
+    r.nontrivial = len({pr for _p, pr in order}) >= 2
+    if any(pr == 500 for _p, pr in order):
+        r.classes.append("has_500")
+    if r.nontrivial:
+        r.sample = text
+    return r
+
+
 def campaigns(tier):
     q = tier == "quick"
     return [
@@ -207,6 +289,8 @@ def campaigns(tier):
                  describe="whole-slot base projects with calendars, limits, groups, teams; forward and backward"),
         Campaign("intruder_short", "hyp", evaluate=eval_pair, strategy=lambda: pairs(PF_SHORT), n=500 if q else 10000,
                  describe="2-4 week projects with intruders pinned near the declared end (horizon channel)"),
+        Campaign("served_first", "hyp", evaluate=eval_contest, strategy=contests, n=800 if q else 15000,
+                 describe="second clause: independent tasks on one resource are served in the order of their effective (own, inherited or default) priority"),
         Campaign("intruder_subslot", "hyp", evaluate=eval_pair, strategy=lambda: pairs(PF_SUB), n=500 if q else 10000,
                  describe="sub-slot efforts, chains on shared resources"),
     ]
